@@ -220,6 +220,7 @@ class Interp:
         self.user_drops_unwind = True   # dropping a value of a type parameter runs a user destructor, which may unwind
         self.acq_limit = None     # cut a path when it is about to issue more than this many blocking acquisitions
         self.root_is_leaf_rawlock_impl = False
+        self.root_is_leaf_rawlock_impl_poison = False
         self.frame_fn = {}        # frame id -> function (types of locals)
         self.frame_subst = {}     # frame id -> {(param name, index): type}: generic arguments the inlined callee was called with
         self.subst_table = [{}]   # interned substitutions carried by closure values (closure aggregate variant = index)
@@ -771,6 +772,7 @@ class Interp:
         m = fn["mir"]
         ti_ = fn.get("trait_item") or ""
         self.root_is_leaf_rawlock_impl = ti_.startswith("lockable::RawLock::")
+        self.root_is_leaf_rawlock_impl_poison = ti_ == "lockable::RawLock::poison"
         self.key_ops = set()
         for i in range(1, m["arg_count"] + 1):
             ti = m["locals"][i]["ty"]
@@ -1575,15 +1577,33 @@ class Interp:
             t = self.proj_ty(t, p)
         return True
 
-    def leaf_owner(self, loc):
-        """the leaf lock object whose raw-lock field `loc` is (or None)"""
+    def leaf_owner(self, loc, leaf_only=False):
+        """the leaf lock object whose raw-lock field `loc` is (or None); the field may sit inside private structs of the
+        lock (`state: LeafState { raw, killed }`): up to three field steps are walked up"""
         if loc is None or loc[0] != "O" or not loc[2] or not isinstance(loc[2][-1], int):
             return None
-        owner = ("O", loc[1], loc[2][:-1])
-        t = self.loc_ty(owner)
-        if t is not None and t["k"] == "adt" and t["path"] in self.rawlock_adts():
-            return self.canon(owner)
+        proj = loc[2]
+        for _ in range(3):
+            if not proj or not isinstance(proj[-1], int):
+                return None
+            proj = proj[:-1]
+            owner = ("O", loc[1], proj)
+            t = self.loc_ty(owner)
+            if t is None or t["k"] != "adt":
+                return None
+            if t["path"] in (self.leaf_adts() if leaf_only else self.rawlock_adts()):
+                return self.canon(owner)
+            if not t.get("local"):
+                return None
         return None
+
+    def leaf_adts(self):
+        """RawLock ADTs that own a raw lock (their impl is bounded by a lock_api trait): Mutex, RwLock"""
+        if not hasattr(self, "_leaf_adts"):
+            self._leaf_adts = set(i["self_ty"]["path"] for i in self.F.impls_of("lockable::RawLock")
+                                  if i["self_ty"]["k"] == "adt" and
+                                  any(p["k"] == "trait" and p["trait"].startswith("lock_api::") for p in i["predicates"]))
+        return self._leaf_adts
 
     def rawlock_adts(self):
         if not hasattr(self, "_rawlock_adts"):
@@ -1920,6 +1940,33 @@ def m_atomic_load(I, st, fn, ce, args, line, depth, dest_ty, may_unwind):
     return [("ret", rv, st)]
 
 
+def m_atomic_get_mut(I, st, fn, ce, args, line, depth, dest_ty, may_unwind):
+    """`AtomicBool::get_mut(&mut self) -> &mut bool`: with exclusive access the plain read equals the atomic load; the
+    result refers to a place that holds the flag's value as read now"""
+    recv = _flag_recv(I, st, args[0])
+    ev = I.emit(st, {"k": "FLAG_READ", "recv": recv, "via": "get_mut"}, fn, line)
+    rv = I.fresh_op(st, "flag", {"k": "prim", "name": "bool", "s": "bool"}, tag=("flag", recv, ev["i"]))
+    ev["result"] = rv[1]
+    tf = st.fresh("flagcell")
+    st.mem[(tf, 0)] = rv
+    return [("ret", Ref(("L", tf, 0, ())), st)]
+
+
+def m_atomic_into_inner(I, st, fn, ce, args, line, depth, dest_ty, may_unwind):
+    """`AtomicBool::into_inner(self) -> bool`: the owned flag's value"""
+    a = args[0]
+    loc = I.oploc.get(a[1]) if a[0] == "op" else None
+    recv = None
+    if loc is not None:
+        recv = _flag_recv(I, st, Ref(loc))
+    if recv is None:
+        recv = a[1] if a[0] == "op" else repr(a)
+    ev = I.emit(st, {"k": "FLAG_READ", "recv": recv, "via": "into_inner"}, fn, line)
+    rv = I.fresh_op(st, "flag", dest_ty, tag=("flag", recv, ev["i"]))
+    ev["result"] = rv[1]
+    return [("ret", rv, st)]
+
+
 def m_atomic_write(kind):
     """store / swap / fetch_or / fetch_and of an AtomicBool with a literal operand"""
     def f(I, st, fn, ce, args, line, depth, dest_ty, may_unwind):
@@ -1943,6 +1990,16 @@ def m_atomic_write(kind):
             eff = "FLAG_CLEAR"
         if eff:
             I.emit(st, {"k": eff, "recv": recv, "via": kind}, fn, line)
+            if eff == "FLAG_SET" and not I.root_is_leaf_rawlock_impl_poison:
+                # the kill flag of a leaf lock set by hand (not through `RawLock::poison`): the lock is killed all the same
+                loc = I.recv_of(st, args[0])
+                owner = I.leaf_owner(loc, leaf_only=True) if loc is not None else None
+                if owner is None and loc is not None and loc[0] == "O" and loc[2]:
+                    owner = I.leaf_owner(("O", loc[1], loc[2][:-1]), leaf_only=True)
+                if owner is not None:
+                    orecv = I.recv_name(owner)
+                    I.emit(st, {"k": "KILL", "recv": orecv, "derived": True}, fn, line)
+                    st.locks[orecv] = "K"
         if kind == "store":
             return [("ret", UNIT, st)]
         # the previous value handed back by the read-modify-write (no FLAG_READ event: it is not a test of the flag)
@@ -2053,6 +2110,22 @@ def m_stdcell_replace(I, st, fn, ce, args, line, depth, dest_ty, may_unwind):
     return [("ret", old, st)]
 
 
+def m_stdcell_take(I, st, fn, ce, args, line, depth, dest_ty, may_unwind):
+    """`Cell<Option<T>>::take()`: the stored option moves out, `None` stays behind"""
+    loc = _ptr_target(I, st, args[0])
+    if loc is None:
+        return None
+    l0 = I.add_proj(loc, 0)
+    try:
+        v = I.load(st, l0)
+    except Undecided:
+        return None
+    if v[0] == "agg" and v[1] == "adt" and str(v[2]).endswith("::Option"):
+        I.store(st, l0, _opt(0, []))
+        return [("ret", v, st)]
+    return None
+
+
 def m_panicking(I, st, fn, ce, args, line, depth, dest_ty, may_unwind):
     ev = I.emit(st, {"k": "PANICKING"}, fn, line)
     rv = I.fresh_op(st, "panicking", dest_ty, tag=("panicking", ev["i"]))
@@ -2119,6 +2192,10 @@ MODELS = {
     "std::sync::atomic::AtomicBool::fetch_or": m_atomic_write("fetch_or"),
     "std::sync::atomic::AtomicBool::fetch_and": m_atomic_write("fetch_and"),
     "std::sync::atomic::Atomic::<bool>::load": m_atomic_load,
+    "std::sync::atomic::AtomicBool::get_mut": m_atomic_get_mut,
+    "std::sync::atomic::Atomic::<bool>::get_mut": m_atomic_get_mut,
+    "std::sync::atomic::AtomicBool::into_inner": m_atomic_into_inner,
+    "std::sync::atomic::Atomic::<bool>::into_inner": m_atomic_into_inner,
     "std::sync::atomic::Atomic::<bool>::store": m_atomic_write("store"),
     "std::sync::atomic::Atomic::<bool>::swap": m_atomic_write("swap"),
     "std::sync::atomic::Atomic::<bool>::fetch_or": m_atomic_write("fetch_or"),
@@ -2134,6 +2211,7 @@ MODELS = {
     "std::cell::Cell::<T>::get": m_stdcell_get,
     "std::cell::Cell::<T>::set": m_stdcell_set,
     "std::cell::Cell::<T>::replace": m_stdcell_replace,
+    "std::cell::Cell::<T>::take": m_stdcell_take,
     "std::thread::panicking": m_panicking,
     "<I as std::iter::IntoIterator>::into_iter": m_identity,
     "core::panicking::panic_fmt": m_panic,
